@@ -273,9 +273,32 @@ class C14(Property):
 
     def exhaustive(self, tier):
         maxlen = 4 if tier == "quick" else 5
+        bound = 3 if tier == "quick" else 5
         self.exhaustive_note = (
-            "every string of length <= %d over the alphabet %s evaluated strict and non-strict from the inner list "
-            "/0/0 of a fixed 20-node tree (tokens and result compared with the model)" % (maxlen, "".join(EXH_ALPHABET)))
+            "(1) every string of length <= %d over the alphabet %s evaluated strict and non-strict from the inner list "
+            "/0/0 of a fixed 20-node tree (tokens and result compared with the model); (2) every slice [a:b], [a:b:c] "
+            "and index [-n] with a, b, c in {omitted, -%d..%d} on arrays of 0..%d members (Python's own slicing is the "
+            "oracle)" % (maxlen, "".join(EXH_ALPHABET), bound, bound, bound + 1))
+        # (2) slices against Python's list slicing
+        vals = [None] + list(range(-bound, bound + 1))
+        for n in range(0, bound + 2):
+            arr = cm.number({"k": "a", "name": "arr", "member": {"k": "s", "name": None},
+                             "kids": [{"k": "s", "name": None, "kids": []} for _ in range(n)]})
+            for a in vals:
+                for b in vals:
+                    ast = {"top": False, "trail": False, "steps": [{"t": "slice", "a": a, "b": b, "sep": False}]}
+                    yield self._case(arr, 0, cm.print_path(ast), True, False, ast)
+                    for c in vals:
+                        ast = {"top": False, "trail": False,
+                               "steps": [{"t": "slice", "a": a, "b": b, "c": {"v": c}, "sep": False}]}
+                        if c == 0:
+                            # no denotation: correspondence only
+                            yield self._case(arr, 0, cm.print_path(ast), True, False)
+                        else:
+                            yield self._case(arr, 0, cm.print_path(ast), True, False, ast)
+            for k in range(0, bound + 3):
+                ast = {"top": False, "trail": False, "steps": [{"t": "neg", "n": k, "sep": False}]}
+                yield self._case(arr, 0, cm.print_path(ast), True, False, ast)
         for n in range(0, maxlen + 1):
             for chars in itertools.product(EXH_ALPHABET, repeat=n):
                 p = "".join(chars)
@@ -432,6 +455,8 @@ class C14(Property):
             t.append("kind:%s" % k)
         if any(n["k"] == "c" and not n.get("set") for n in nodes):
             t.append("has-unset-compound")
+        if any("sparse" in n for n in nodes):
+            t.append("has-sparse-dict")
         if case["start"] != case["tree"]["id"]:
             t.append("start-below-root")
         return sorted(set(t))
